@@ -808,14 +808,14 @@ fn build_deref_for_struct(
         DeriveItemKind::Deref => {
             quote! {
                 type Target = #target_ty;
-                fn deref(&self) -> & #target_ty {
+                fn deref(&self) -> &Self::Target {
                     &self.#member
                 }
             }
         }
         DeriveItemKind::DerefMut => {
             quote! {
-                fn deref_mut(&mut self) -> &mut #target_ty {
+                fn deref_mut(&mut self) -> &mut Self::Target {
                     &mut self.#member
                 }
             }
